@@ -142,7 +142,9 @@ func (u *UDP) SetInternalPortsForTesting() {
 }
 
 func (u *UDP) VerifyChecksum() (error, gopacket.ChecksumVerificationResult) {
-	bytes := append(u.Contents, u.Payload...)
+	// Cap Contents so that append copies: Contents has spare capacity inside the packet
+	// buffer and a plain append would write there (data race; caller's buffer under NoCopy).
+	bytes := append(u.Contents[:len(u.Contents):len(u.Contents)], u.Payload...)
 
 	existing := u.Checksum
 	verification, err := u.computeChecksum(bytes, IPProtocolUDP)
